@@ -560,6 +560,15 @@ func monC09(c *child.Ctx, replay json.RawMessage) {
 			k.EndsWithError = true
 			c.Count("runs_ending_with_a_read_error", 1)
 		}
+		if k.TolMs > 0 && i%3 == 0 && i%8 != 6 && len(input) > 0 {
+			// a serial line that delivers NUL bytes while it settles
+			input = append(make([]byte, r.Range(1, 9)), input...)
+			k.Input = hexs(input)
+			for j := range k.EOFAt {
+				k.EOFAt[j] += 0 // offsets still lie inside the data
+			}
+			c.Count("live_feeds_beginning_with_nul_bytes", 1)
+		}
 		if k.TolMs > 0 && i%16 >= 8 {
 			k.Timeouts = true
 			c.Count("runs_with_io_timeout_interruptions", 1)
